@@ -4,6 +4,7 @@ package main
 
 import (
 	"fmt"
+	"net"
 	"go/constant"
 	"go/types"
 	"sort"
@@ -152,6 +153,11 @@ func (d *Decls) StrLit(s string) string {
 	d.strLits[s] = q
 	d.strList = append(d.strList, s)
 	d.axiom(fmt.Sprintf("(= (gs.len %s) %d)", q, len(s)))
+	// literal facts evaluated by the generator (with Go's own library; trusted)
+	for _, name := range sortedKeys(literalPreds) {
+		d.Fun("spec:"+name, []string{"Str"}, "Bool")
+		d.axiom(fmt.Sprintf("(= (%s %s) %v)", sym("spec:"+name), q, literalPreds[name](s)))
+	}
 	if len(s) <= 64 {
 		for i := 0; i < len(s); i++ {
 			d.axiom(fmt.Sprintf("(= (gs.at %s %d) %d)", q, i, s[i]))
@@ -290,7 +296,7 @@ func (d *Decls) Zero(t types.Type) string {
 	case *types.Interface:
 		return "(mk-iface 0 0)"
 	case *types.Array:
-		return fmt.Sprintf("((as const %s) %s)", d.SortOf(t), d.Zero(u.Elem()))
+		return d.ConstArray("Int", d.SortOf(u.Elem()), d.Zero(u.Elem()))
 	case *types.Struct:
 		ctor, _, st := d.structCtor(t)
 		if st.NumFields() == 0 {
@@ -487,4 +493,53 @@ func sortedKeys[V any](m map[string]V) []string {
 	}
 	sort.Strings(ks)
 	return ks
+}
+
+
+// ConstArray returns an array term whose every element is v. cvc5 accepts (as const ...)
+// only for value terms, so other defaults get a declared array with a quantified axiom.
+func (d *Decls) ConstArray(idxSort, elemSort, v string) string {
+	isValue := true
+	for _, tok := range strings.FieldsFunc(v, func(r rune) bool { return r == '(' || r == ')' || r == ' ' }) {
+		switch {
+		case tok == "true", tok == "false", tok == "mk-slice", tok == "mk-iface", tok == "-":
+		case tok[0] >= '0' && tok[0] <= '9':
+		default:
+			isValue = false
+		}
+	}
+	if isValue {
+		return fmt.Sprintf("((as const (Array %s %s)) %s)", idxSort, elemSort, v)
+	}
+	key := "constarr:" + idxSort + ":" + elemSort + ":" + v
+	if n, ok := d.sorts[key]; ok {
+		return n
+	}
+	n := d.Const(fmt.Sprintf("constarr%d", len(d.sorts)), fmt.Sprintf("(Array %s %s)", idxSort, elemSort))
+	d.sorts[key] = n
+	d.axiom(fmt.Sprintf("(forall ((i %s)) (! (= (select %s i) %s) :pattern ((select %s i))))", idxSort, n, v, n))
+	return n
+}
+
+
+// plainASCII: printable ASCII that encoding/json writes verbatim between quotes.
+func plainASCII(s string) bool {
+	for i := 0; i < len(s); i++ {
+		c := s[i]
+		if c < 0x20 || c > 0x7e || c == '"' || c == '\\' || c == '<' || c == '>' || c == '&' {
+			return false
+		}
+	}
+	return true
+}
+
+
+// literalPreds: specification predicates on strings that the generator evaluates on
+// every string literal occurring in a unit (they stay uninterpreted elsewhere).
+var literalPreds = map[string]func(string) bool{
+	"plainASCII": plainASCII,
+	"cidrOK": func(s string) bool {
+		_, _, err := net.ParseCIDR(s)
+		return err == nil
+	},
 }
